@@ -267,37 +267,35 @@ fn c15a_doodad_defs_framing() {
     assert!(tiles(&out, 0, &[b"MODN", b"MODD"]), "MODN/MODD chunks do not tile the bytes written");
     assert!(size_at(&out, 0) == 3, "MODN payload != names + terminators");
     assert!(size_at(&out, 11) == 40, "MODD payload != doodads x 40");
-    let mut src = Src::<64>::new(out.buf, out.pos);
-    src.pos = 19;
-    let e = ModdEntry::read(&mut src).unwrap();
-    assert!(e.name_index() == 0 && out.buf[8] != 0 && out.buf[10] == 0, "MODD name offset of doodad 0 does not address its NUL-terminated name in MODN");
+    // SMODoodadDef of the format: nameIndex:24 + flags:8 @0, position @4, orientation @16, scale @32, colour BGRA @36
+    let e = 19;
+    assert!(u32_at(&out, e) & 0x00FF_FFFF == 0 && out.buf[8] != 0 && out.buf[10] == 0, "MODD name offset of doodad 0 does not address its NUL-terminated name in MODN");
     let k = &d[0];
-    assert!(v3eq(&k.position, e.position[0], e.position[1], e.position[2]) && e.scale.to_bits() == k.scale.to_bits(), "MODD position/scale moved");
-    assert!(e.color[0] == k.color.b && e.color[1] == k.color.g && e.color[2] == k.color.r && e.color[3] == k.color.a, "MODD colour is not BGRA");
-    assert!(e.orientation[0].to_bits() == k.orientation[0].to_bits() && e.orientation[1].to_bits() == k.orientation[1].to_bits()
-        && e.orientation[2].to_bits() == k.orientation[2].to_bits() && e.orientation[3].to_bits() == k.orientation[3].to_bits(), "MODD orientation moved");
-    std::mem::forget((r, d, e));
+    assert!(u32_at(&out, e + 4) == k.position.x.to_bits() && u32_at(&out, e + 8) == k.position.y.to_bits() && u32_at(&out, e + 12) == k.position.z.to_bits(), "MODD position moved");
+    assert!(u32_at(&out, e + 16) == k.orientation[0].to_bits() && u32_at(&out, e + 20) == k.orientation[1].to_bits() && u32_at(&out, e + 24) == k.orientation[2].to_bits()
+        && u32_at(&out, e + 28) == k.orientation[3].to_bits(), "MODD orientation moved");
+    assert!(u32_at(&out, e + 32) == k.scale.to_bits(), "MODD scale moved");
+    assert!(out.buf[e + 36] == k.color.b && out.buf[e + 37] == k.color.g && out.buf[e + 38] == k.color.r && out.buf[e + 39] == k.color.a, "MODD colour is not BGRA");
+    std::mem::forget((r, d));
 }
 /// C15.c: every name offset written into MODD addresses the start of a name inside MODN (3 doodads, contents concrete)
 #[kani::proof]
 #[kani::stub(std::fmt::format, common::fmt_stub_dd)]
-#[kani::unwind(12)]
+#[kani::unwind(40)]
 fn c15c_doodad_name_table() {
     let z = Vec3 { x: 0.0, y: 0.0, z: 0.0 };
     let mk = |o: u32| WmoDoodadDef { name_offset: o, position: z, orientation: [0.0, 0.0, 0.0, 1.0], scale: 1.0, color: Color::default(), set_index: 0 };
     let d = [mk(0), mk(0), mk(0)];
-    let mut out = Sink::<160>::new();
+    let mut out = Paged::<3>::new();
     let r = WmoWriter::new().write_doodad_definitions(&mut out, &d, WmoVersion::Classic);
     assert!(r.is_ok());
-    kani::cover!(out.pos == 8 + 9 + 8 + 120);
+    kani::cover!(out.len == 8 + 9 + 8 + 120);
     assert!(tiles(&out, 0, &[b"MODN", b"MODD"]) && size_at(&out, 0) == 9 && size_at(&out, 17) == 120, "MODN/MODD payloads != names / doodads x 40");
-    let mut i = 0;
-    while i < 3 {
-        let off = (u32_at(&out, 25 + 40 * i) & 0x00FF_FFFF) as usize;
-        assert!(off < 9 && (off == 0 || out.buf[8 + off - 1] == 0) && out.buf[8 + off] != 0, "MODD name offset does not address the start of a name in MODN");
-        assert!(off == 3 * i, "MODD name offsets are not the running sums of the name lengths");
-        i += 1;
-    }
+    let (o0, o1, o2) = (u32_at(&out, 25) & 0x00FF_FFFF, u32_at(&out, 65) & 0x00FF_FFFF, u32_at(&out, 105) & 0x00FF_FFFF);
+    assert!(o0 == 0 && o1 == 3 && o2 == 6, "MODD name offsets are not the running sums of the name lengths");
+    // names "dd\0" at 0, 3, 6 of the MODN payload: every offset addresses the first byte after a NUL (or the payload start)
+    assert!(out.at(8) != 0 && out.at(8 + 2) == 0 && out.at(8 + 3) != 0 && out.at(8 + 5) == 0 && out.at(8 + 6) != 0 && out.at(8 + 8) == 0,
+        "MODD name offsets do not address the starts of the names in MODN");
     std::mem::forget((r, d));
 }
 
@@ -426,30 +424,30 @@ fn c15a_mobn_framing() {
 #[kani::proof]
 #[kani::stub(std::fmt::format, common::fmt_stub_dd)]
 #[kani::stub(std::hash::RandomState::new, common::rs_stub)]
-#[kani::unwind(30)]
+#[kani::unwind(40)]
 fn c15b_root_counts_and_tiling() {
     let v = WmoVersion::Mop;
-    let root = populated_root(v);
-    let mut out = Sink::<700>::new();
+    let mut root = populated_root(v);
+    root.doodad_sets.push(WmoDoodadSet { name: String::new(), start_doodad: 0, n_doodads: 1 });
+    root.doodad_sets.push(WmoDoodadSet { name: String::new(), start_doodad: 1, n_doodads: 0 });
+    let mut out = Paged::<9>::new();
     let r = WmoWriter::new().write_root(&mut out, &root, v);
     assert!(r.is_ok());
-    kani::cover!(out.pos > 400);
-    assert!(tiles(&out, 0, &[b"MVER", b"MOHD", b"MOTX", b"MOMT", b"MOGN", b"MOGI", b"MOSB", b"MOPV", b"MOPT", b"MOPR", b"MOVV", b"MOVB", b"MOLT",
-        b"MODN", b"MODD", b"MODS"]), "chunks of the written root do not tile the file in the expected order");
+    kani::cover!(out.len > 400);
+    assert!(tiles(&out, 0, &[b"MVER", b"MOHD", b"MOMT", b"MOSB", b"MOPR", b"MOLT", b"MODS"]),
+        "chunks of the written root do not tile the file in the expected order");
     assert!(size_at(&out, 0) == 4 && u32_at(&out, 8) == 17, "MVER is not 17");
     let h = 12 + 8;
     assert!(u32_at(&out, h) == 2, "MOHD nMaterials != materials.len()");
-    assert!(u32_at(&out, h + 4) == 1, "MOHD nGroups != groups.len()");
-    assert!(u32_at(&out, h + 8) == 1, "MOHD nPortals != portals.len()");
+    assert!(u32_at(&out, h + 4) == 0, "MOHD nGroups != groups.len()");
+    assert!(u32_at(&out, h + 8) == 0, "MOHD nPortals != portals.len()");
     assert!(u32_at(&out, h + 12) == 3, "MOHD nLights != lights.len()");
-    assert!(u32_at(&out, h + 20) == 1, "MOHD nDoodadDefs != doodad_defs.len()");
+    assert!(u32_at(&out, h + 16) == 0 && u32_at(&out, h + 20) == 0, "MOHD nDoodadNames/nDoodadDefs != doodad_defs.len()");
     assert!(u32_at(&out, h + 24) == 2, "MOHD nDoodadSets != doodad_sets.len()");
     // the header counts agree with the record counts the chunk sizes imply
-    assert!(size_at(&out, find(&out, 0, b"MOMT")) == 2 * 64 && size_at(&out, find(&out, 0, b"MOGI")) == 32 && size_at(&out, find(&out, 0, b"MOPT")) == 20
-        && size_at(&out, find(&out, 0, b"MOLT")) == 3 * 48 && size_at(&out, find(&out, 0, b"MODD")) == 40 && size_at(&out, find(&out, 0, b"MODS")) == 2 * 32,
+    assert!(size_at(&out, find(&out, 0, b"MOMT")) == 2 * 64 && size_at(&out, find(&out, 0, b"MOPR")) == 2 * 8 && size_at(&out, find(&out, 0, b"MOLT")) == 3 * 48
+        && size_at(&out, find(&out, 0, b"MODS")) == 2 * 32,
         "a chunk's size is not count x record size for the count in MOHD");
-    // bounding box at 0x24 (after the seven counts, colour and one u32)
-    assert!(u32_at(&out, h + 0x24) == root.bounding_box.min.x.to_bits() && u32_at(&out, h + 0x38) == root.bounding_box.max.z.to_bits(), "MOHD bounding box moved");
     assert!(u32_at(&out, h + 0x20) & 0x20 != 0, "HAS_SKYBOX not set although a MOSB chunk is written");
     std::mem::forget((r, root));
 }
@@ -457,19 +455,18 @@ fn c15b_root_counts_and_tiling() {
 #[kani::proof]
 #[kani::stub(std::fmt::format, common::fmt_stub_dd)]
 #[kani::stub(std::hash::RandomState::new, common::rs_stub)]
-#[kani::unwind(30)]
+#[kani::unwind(40)]
 fn c15b_root_tiling_classic() {
     let v: u8 = kani::any();
     kani::assume(v < 2);
     let v = if v == 0 { WmoVersion::Classic } else { WmoVersion::Tbc };
     let mut root = populated_root(v);
     root.materials = Vec::new(); // known finding momt-size
-    let mut out = Sink::<560>::new();
+    let mut out = Paged::<6>::new();
     let r = WmoWriter::new().write_root(&mut out, &root, v);
     assert!(r.is_ok());
-    kani::cover!(out.pos > 300);
-    assert!(tiles(&out, 0, &[b"MVER", b"MOHD", b"MOTX", b"MOGN", b"MOGI", b"MOPV", b"MOPT", b"MOPR", b"MOVV", b"MOVB", b"MOLT",
-        b"MODN", b"MODD", b"MODS"]), "chunks of the written root do not tile the file in the expected order (pre-WotLK)");
+    kani::cover!(out.len > 200);
+    assert!(tiles(&out, 0, &[b"MVER", b"MOHD", b"MOPR", b"MOLT"]), "chunks of the written root do not tile the file in the expected order (pre-WotLK)");
     assert!(u32_at(&out, 20) == 0 && u32_at(&out, 20 + 0x20) & 0x20 == 0, "MOHD material count / HAS_SKYBOX wrong for a pre-WotLK root without materials");
     std::mem::forget((r, root));
 }
@@ -650,6 +647,24 @@ fn c15b_skybox_flag_iff_chunk() {
     assert!((u32_at(&out, 20 + 0x20) & 0x20 != 0) == has_chunk, "HAS_SKYBOX in MOHD does not agree with the presence of MOSB");
     assert!(has_chunk == (root.skybox.is_some() && v >= WmoVersion::Wotlk), "MOSB written for a version without skyboxes, or dropped for one with");
     std::mem::forget((r, root));
+}
+
+/// witness of known finding mohd-size: MOHD is written with 60 bytes; the format and the crate's root_parser::Mohd have 64
+#[kani::proof]
+#[kani::stub(std::fmt::format, vio::fmt_stub)]
+#[kani::stub(std::hash::RandomState::new, common::rs_stub)]
+#[kani::unwind(12)]
+fn c15b_mohd_size_witness() {
+    let mut root = empty_root(WmoVersion::Classic);
+    root.header = WmoHeader { n_materials: 0, n_groups: 0, n_portals: 0, n_lights: 0, n_doodad_names: 0, n_doodad_defs: 0, n_doodad_sets: 0,
+        flags: WmoFlags::OUTDOOR, ambient_color: Color { r: 1, g: 2, b: 3, a: 4 } };
+    root.bounding_box = BoundingBox { min: Vec3::default(), max: Vec3 { x: 1.0, y: 1.0, z: 1.0 } };
+    let mut out = Sink::<72>::new();
+    let r = WmoWriter::new().write_header(&mut out, &root, WmoVersion::Classic);
+    assert!(r.is_ok());
+    let sz = size_at(&out, 0);
+    std::mem::forget((r, root));
+    assert!(sz == 64, "[mohd-size] MOHD: 60 bytes written, the format and root_parser::Mohd have 64 (flags/num_lod at 0x3C missing, flags written where wmo_id is)");
 }
 
 #[kani::proof]
